@@ -636,7 +636,7 @@ class Entity:
         self.ncalls += 1
         was_busy = not self.idle()
         kind = None if pdu is None else pdu_kind(pdu)
-        self.log.append(("call", self.side, self.ncalls, kind))
+        self.log.append(("call", self.side, self.ncalls, kind, self.h.step.name, pdu))
         try:
             self.h.state_machine(pdu)
         except LIB_EXC as e:
@@ -661,6 +661,12 @@ class Entity:
             self.log.append(("exc", self.side, self.ncalls, type(e).__name__, False, _where(e)))
         out = self.drain()
         self._after_call(was_busy)
+        if pdu is not None and not was_busy and self.idle() and self.internal_error is None and not any(
+            e[0] == "exc" and e[1] == self.side and e[2] == self.ncalls for e in self.log[-6:]
+        ):
+            # a transaction that was opened and closed by this single call (e.g. a metadata-only transfer in
+            # unacknowledged mode) belongs to the history as well
+            self.closed.add(tid_of(pdu))
         return out
 
 
@@ -1041,6 +1047,7 @@ class Sim:
                 tid = ent.h.transaction_id
                 was_busy = not ent.idle()
                 had_tid = tid is not None
+                self.log.append(("inject_begin", side, "cancel", ncall))
                 if tid is not None and right in ("seq", "src"):
                     # near misses: same sequence number from another entity / same entity, next sequence number
                     if right == "seq":
